@@ -103,7 +103,7 @@ fn stub_candidates2<P: MovePush>(_b: &Board, _piece: Piece, _dst: Coord, res: &m
     while i < 8 { if i < n { res.push(unsafe { CAND2[i] }); } i += 1; }
 }
 harness! {
-    #[kani::unwind(10)]
+    #[kani::unwind(14)]
     #[kani::stub(crate::movegen::san_candidates, stub_candidates2)]
     fn c09_into_move_simple_v2() {
         let b = ab::any_board();
